@@ -137,6 +137,12 @@ mzd_t *mzd_from_png(const char *fn, int verbose) {
     goto from_png_destroy_read_struct;
   }
 
+  if (bit_depth != 1 || channels != 1) {
+    /* the row buffer below holds one bit per pixel */
+    if (verbose) printf("only 1-bit images with one channel are supported.\n");
+    goto from_png_destroy_read_struct;
+  }
+
   A                      = mzd_init(m, n);
   const word bitmask_end = A->high_bitmask;
   png_bytep row          = m4ri_mm_calloc(sizeof(char), n / 8 + 1);
